@@ -251,6 +251,49 @@ def run_one(world, run, bytecode, stats):
             return _ORIG_WA(path, bytes(data)[: max(17, len(data) // 2)], mode)
         return _ORIG_WA(path, data, mode)
 
+    def analyse(log0):
+        """Judge every module load completed since LOG position log0 against the model of the current configuration."""
+        done = {(e[1], e[2]) for e in hsim_spy.LOG[log0:] if e[0] == "done"}
+        executed = [(e[1], e[2]) for e in hsim_spy.LOG[log0:] if e[0] == "exec" and (e[1], e[2]) in done]
+        decos = {}
+        for e in hsim_spy.LOG[log0:]:
+            if e[0] == "deco":
+                decos.setdefault(e[1], set()).add(e[3])
+        for name, ver in executed:
+            stats.inc("modules_loaded")
+            want = _covering(hooks, name)
+            mod = sys.modules.get(name)
+            f = getattr(mod, "f", None) if mod is not None else None
+            if f is None:
+                continue  # body raised (injected) before f was defined
+            inst = hasattr(f, "__wrapped__")
+            got = sorted(decos.get(name, ()))
+            exp_inst = bool(want)
+            cur = world.versions[name]
+            rec = {"module": name, "run_hooks": [(h["names"], h["checker"]) for h in hooks if h["active"]],
+                   "instrumented": inst, "checkers_seen": got, "version_run": ver, "version_source": cur}
+            observations.append([name, inst, got, ver])
+            if ver == inflight.get(name) and (not callable(getattr(mod, "which", None)) or mod.which() == ver):
+                stats.inc("loaded_text_read_before_concurrent_edit")
+            elif ver != cur or (callable(getattr(mod, "which", None)) and mod.which() != cur):
+                problems.append(dict(rec, what="stale code: module executed code of an older source version"))
+            if inst != exp_inst:
+                problems.append(dict(rec, what="instrumented although no active hook covers it" if inst
+                                     else "NOT instrumented although an active hook covers it"))
+            elif inst:
+                allowed = {CANON[c] for c in want}
+                seen = set(got) if got else {"none"}
+                if not seen <= allowed:
+                    problems.append(dict(rec, what="instrumented with a checker that no covering hook asked for",
+                                         allowed=sorted(allowed)))
+                stats.inc("loaded_instrumented")
+                if len(set(want)) > 1:
+                    stats.inc("loaded_under_overlapping_hooks")
+            else:
+                if got:
+                    problems.append(dict(rec, what="uninstrumented module decorated by a spy checker"))
+                stats.inc("loaded_plain")
+
     _be._write_atomic = write_atomic
     ioseam = _IoSeam()
     _be._io = ioseam
@@ -344,46 +387,67 @@ def run_one(world, run, bytecode, stats):
                     stats.inc("import_failed_while_a_source_is_broken")
                 elif exc is not None and not st.fired and not getattr(world, "torn", False):
                     problems.append({"what": f"{k} of {target} failed in a fault-free run", "exc": repr(exc), "op_index": i})
-                done = {(e[1], e[2]) for e in hsim_spy.LOG[log0:] if e[0] == "done"}
-                executed = [(e[1], e[2]) for e in hsim_spy.LOG[log0:] if e[0] == "exec" and (e[1], e[2]) in done]
-                decos = {}
-                for e in hsim_spy.LOG[log0:]:
-                    if e[0] == "deco":
-                        decos.setdefault(e[1], set()).add(e[3])
-                for name, ver in executed:
-                    stats.inc("modules_loaded")
-                    want = _covering(hooks, name)
-                    mod = sys.modules.get(name)
-                    f = getattr(mod, "f", None) if mod is not None else None
-                    if f is None:
-                        continue  # body raised (injected) before f was defined
-                    inst = hasattr(f, "__wrapped__")
-                    got = sorted(decos.get(name, ()))
-                    exp_inst = bool(want)
-                    cur = world.versions[name]
-                    rec = {"module": name, "run_hooks": [(h["names"], h["checker"]) for h in hooks if h["active"]],
-                           "instrumented": inst, "checkers_seen": got, "version_run": ver, "version_source": cur}
-                    observations.append([name, inst, got, ver])
-                    if ver == inflight.get(name) and (not callable(getattr(mod, "which", None)) or mod.which() == ver):
-                        stats.inc("loaded_text_read_before_concurrent_edit")
-                    elif ver != cur or (callable(getattr(mod, "which", None)) and mod.which() != cur):
-                        problems.append(dict(rec, what="stale code: module executed code of an older source version"))
-                    if inst != exp_inst:
-                        problems.append(dict(rec, what="instrumented although no active hook covers it" if inst
-                                             else "NOT instrumented although an active hook covers it"))
-                    elif inst:
-                        allowed = {CANON[c] for c in want}
-                        seen = set(got) if got else {"none"}
-                        if not seen <= allowed:
-                            problems.append(dict(rec, what="instrumented with a checker that no covering hook asked for",
-                                                 allowed=sorted(allowed)))
-                        stats.inc("loaded_instrumented")
-                        if len(set(want)) > 1:
-                            stats.inc("loaded_under_overlapping_hooks")
-                    else:
-                        if got:
-                            problems.append(dict(rec, what="uninstrumented module decorated by a spy checker"))
-                        stats.inc("loaded_plain")
+                analyse(log0)
+            elif k == "par":
+                # concurrent imports inside one run: 2-3 real threads under the baton scheduler (pre-emption at every traced
+                # line of jaxtyping/, i.e. inside the hook's finder, loader and AST transformer); the generator gives the
+                # threads disjoint import closures, so they never wait for one another's module locks
+                from . import sched as S
+                from .core import rng as _rng
+
+                log0 = len(hsim_spy.LOG)
+                inflight.clear()
+                excs = []
+
+                def mk(targets):
+                    def go():
+                        for t_ in targets:
+                            try:
+                                importlib.import_module(t_)
+                            except _Crash:
+                                excs.append((t_, "crash"))
+                            except BaseException as e:
+                                excs.append((t_, repr(e)))
+                    return go
+
+                import _imp
+
+                inner = S.make_policy(op["sched"], len(op["threads"]), _rng(op.get("sched_seed", 0), "par"), expected_yields=600)
+
+                class _NoSwitchUnderImportLock(S.Policy):
+                    """Finders run under CPython's GLOBAL import lock: no other thread can import meanwhile, so a pre-emption
+                    there is neither possible to exploit nor schedulable (the next thread would block on the lock)."""
+
+                    def first(self, s_):
+                        return inner.first(s_)
+
+                    def decide(self, s_, i_, loc):
+                        if _imp.lock_held():
+                            return None
+                        return inner.decide(s_, i_, loc)
+
+                    def on_enter(self, s_, i_, w):
+                        return inner.on_enter(s_, i_, w)
+
+                    def on_finish(self, s_, i_):
+                        return inner.on_finish(s_, i_)
+
+                pol = _NoSwitchUnderImportLock()
+                sc = S.Scheduler(len(op["threads"]), pol, watchdog_s=60.0)
+                sc.run([mk(t_) for t_ in op["threads"]])
+                stats.inc("op:par")
+                stats.inc("par:handovers", len(sc.handovers))
+                stats.mx("par:max_yields", sc.total_yields)
+                stats.inc("par:yields_inside_a_lock_of_the_hook", sc.skipped_in_critical_section)
+                if any(h[1] != "fin" for h in sc.handovers):
+                    stats.inc("par:runs_with_preemption")
+                if excs and world.broken:
+                    stats.inc("import_failed_while_a_source_is_broken")
+                elif excs and not st.fired and not getattr(world, "torn", False) and not any(e[1] == "crash" for e in excs):
+                    problems.append({"what": f"concurrent import of {excs[0][0]} failed in a fault-free run", "exc": excs[0][1], "op_index": i})
+                if any(e[1] == "crash" for e in excs):
+                    raise _Crash()
+                analyse(log0)
             elif k == "edit":
                 m = op["module"]
                 world.versions[m] += 1
